@@ -96,6 +96,8 @@ let pcfg_of_raw r =
     c_rssi = opt r.rssifail (z_of_int (let v = r.rssi land 255 in if v >= 128 then v - 256 else v)) }
 let graw = ref default_g
 
+(* frames handed to the port during the last operation (for "relay") *)
+let last_sends : (int * n list) list ref = ref []
 let out = Buffer.create (1 lsl 16)
 let pf fmt = Printf.bprintf out fmt
 let b2i b = if b then 1 else 0
@@ -109,7 +111,7 @@ let pr_dict i =
   let ents = List.sort compare ents in
   pf "~ cnt=%d allc=%d empty=%d dict=%s" (List.length d) (b2i (d_all_complete d)) (b2i (d = [])) (if ents = [] then "-" else String.concat "," ents)
 let reset_state () =
-  Hashtbl.reset dicts;
+  Hashtbl.reset dicts; last_sends := [];
   sys := sys0; world := world0; junk := n_of_int 0xA5;
   Hashtbl.reset failalloc; Hashtbl.reset failsend; failalloc_from := -1; failsend_from := -1;
   Hashtbl.reset raws; graw := default_g
@@ -148,7 +150,9 @@ let fault_name = function OobRead -> "oob-read" | OobWrite -> "oob-write" | BadF
 let exec (p : op) : opret =
   world := { !world with w_trace = [] };
   match run_op af sf !junk !sys p !world with
-  | Ok ((y, r), w) -> sys := y; world := w; pr_actions (); r
+  | Ok ((y, r), w) -> sys := y; world := w; pr_actions ();
+    last_sends := !last_sends @ List.filter_map (function Send (c, _, fr) -> Some (int_of_n c, fr) | _ -> None) (List.rev w.w_trace);
+    r
   | Fault f -> raise (Faulted (fault_name f))
 
 let ret_int = function RInt z -> int_of_z z | _ -> 0
@@ -203,7 +207,14 @@ let run_line line =
     let fill k = n_of_int (int_of_string ("0x" ^ arg k)) in
     let auto_line ?ret () = pf "="; (match ret with Some r -> pf " ret=%s" r | None -> ()); pr_autom (ctx ()); pf "\n" in
     let tbl_line ?ret () = pf "="; (match ret with Some r -> pf " ret=%s" r | None -> ()); pr_table (ctx ()); pf "\n" in
+    let relayed = !last_sends in
+    last_sends := [];
     (match opname with
+     | "relay" ->
+       let from = int_of_string (arg 0) and dst = n_of_int (let i = int_of_string (arg 1) in if i < 0 || i >= 8 then 0 else i) in
+       List.iter (fun (cx, fr) -> if cx = from then ignore (exec (OFrame (dst, fill 2, fr)))) relayed;
+       last_sends := [];
+       pf "="; pr_led (); pf "\n"
      | "cfg" -> do_cfg args; pf "= ok\n"
      | "junk" -> junk := n_of_int (int_of_string ("0x" ^ arg 0)); pf "= ok\n"
      | "adv" -> ignore (exec (OAdv (n_of_string (arg 0)))); pf "= now=%s\n" (string_of_n !world.w_now)
